@@ -30,6 +30,8 @@ From Coq Require Import List Bool Arith NArith String Ascii.
 From PV Require Import Common.Cases.
 Import ListNotations.
 
+(* a Python str, as its UTF-8 bytes: every operation below inspects ASCII characters only
+   ('.', '_', '@', A-Z), and those never occur inside a multi-byte sequence *)
 Definition str := list N.
 Definition str_eqb : str -> str -> bool := list_beq N.eqb.
 Definition lit (x : string) : str := map N_of_ascii (list_ascii_of_string x).
@@ -102,6 +104,9 @@ Section Dict.
     end.
   Definition dmem (k : K) (m : list (K * V)) : bool :=
     match dget k m with Some _ => true | None => false end.
+  (* v = d.get(k); d[k] = upd(v) if present, else d[k] = ins   (setdefault-then-mutate) *)
+  Definition upsert (k : K) (ins : V) (upd : V -> V) (m : list (K * V)) : list (K * V) :=
+    match dget k m with Some v => dset k (upd v) m | None => m ++ [(k, ins)] end.
   (* a.update(b) *)
   Definition dupdate (a b : list (K * V)) : list (K * V) :=
     fold_left (fun m kv => dset (fst kv) (snd kv) m) b a.
@@ -218,10 +223,11 @@ Definition parse (p : parser) : list service := map snd (parse_results p).
 Definition DEVINFO := lit "_device-info._tcp.local".
 Definition SLEEPPROXY := lit "_sleep-proxy._udp.local".
 
+Definition K_MODEL := lit "model".
 Fixpoint get_model (l : list service) : option str :=
   match l with
   | [] => None
-  | sv :: t => if str_eqb (stype sv) DEVINFO then pget (lit "model") (sprops sv) else get_model t
+  | sv :: t => if str_eqb (stype sv) DEVINFO then pget K_MODEL (sprops sv) else get_model t
   end.
 
 Record response := mkResp { rservices : list service; rdeep : bool; rmodel : option str }.
@@ -344,20 +350,16 @@ Record fdev := mkF { fname : option str; fdeep : bool; fmodel : N; fsvcs : list 
 Record sstate := mkS { found : list (N * fdev); sprops_ : list (N * list (str * dict)) }.
 Definition sstate0 := mkS [] [].
 
+(* if address not in _found_devices: _found_devices[address] = FoundDevice(name, address, deep,
+   model, []);  _found_devices[address].services.append(base_service) *)
 Definition add_found (a : N) (nm : option str) (deep : bool) (m : N) (b : bsvc)
            (f : list (N * fdev)) : list (N * fdev) :=
-  let f1 := if dmem N.eqb a f then f else f ++ [(a, mkF nm deep m [])] in
-  match dget N.eqb a f1 with
-  | Some d => dset N.eqb a (mkF (fname d) (fdeep d) (fmodel d) (fsvcs d ++ [b])) f1
-  | None => f1
-  end.
+  upsert N.eqb a (mkF nm deep m [b])
+         (fun d => mkF (fname d) (fdeep d) (fmodel d) (fsvcs d ++ [b])) f.
 
+(* if address not in _properties: _properties[address] = {};  _properties[address][type] = props *)
 Definition save_props (a : N) (ty : str) (p : dict) (m : list (N * list (str * dict))) :=
-  let m1 := if dmem N.eqb a m then m else m ++ [(a, [])] in
-  match dget N.eqb a m1 with
-  | Some d => dset N.eqb a (dset str_eqb ty p d) m1
-  | None => m1
-  end.
+  upsert N.eqb a [(ty, p)] (dset str_eqb ty p) m.
 
 (* _service_discovered inside the try/except of handle_response *)
 Definition service_discovered (lk : lookups) (r : response) (st : sstate) (sv : service) : sstate :=
@@ -380,12 +382,10 @@ Definition handle_response (lk : lookups) (types : list str) (st : sstate) (r : 
             (rservices r) st.
 
 (* conf.AppleTV.add_service + BaseService.merge *)
+Definition merge (b e : bsvc) : bsvc :=
+  mkB (bident e) (bproto e) (bport e) (dupdate str_eqb (bprops e) (bprops b)).
 Definition add_service (l : list (proto * bsvc)) (b : bsvc) : list (proto * bsvc) :=
-  match dget proto_eqb (bproto b) l with
-  | Some e => dset proto_eqb (bproto b)
-                   (mkB (bident e) (bproto e) (bport e) (dupdate str_eqb (bprops e) (bprops b))) l
-  | None => l ++ [(bproto b, b)]
-  end.
+  upsert proto_eqb (bproto b) b (merge b) l.
 
 Fixpoint first_some {A} (l : list (option A)) : option A :=
   match l with [] => None | Some x :: _ => Some x | None :: t => first_some t end.
@@ -552,27 +552,15 @@ Definition table_lk (tm : list (str * N)) (ti : list (str * N)) : lookups :=
                  | None => 0%N
                  end).
 
-(* sizes of the parser tables, per source in order: for each name the number of records *)
-Definition table_sizes (p : parser) : list (str * nat) :=
-  map (fun n => (n, List.length (filter (fun r => str_eqb (qn r) n) (precs p)))) (table_names (precs p)).
-Definition sizes_eqb (a b : list (list (str * nat))) : bool :=
-  list_beq (list_beq (fun x y => str_eqb (fst x) (fst y) && Nat.eqb (snd x) (snd y))) a b.
-
 Inductive history := HMulti (h : list (N * dgram)) | HUni (hs : list (list dgram)).
 
 Record case := mkCase
   { k_wanted : list proto; k_ids : list str; k_hist : history;
-    k_out : list oconfig; k_sizes : list (list (str * nat)) }.
+    k_out : list oconfig }.
 
 Definition check_case (tm ti : list (str * N)) (c : case) : bool :=
   let lk := table_lk tm ti in
   match k_hist c with
-  | HMulti h =>
-      list_beq oconfig_eqb (map observe (scan_multicast lk (k_wanted c) (k_ids c) h)) (k_out c) &&
-      sizes_eqb (map (fun sq => table_sizes (qparser (snd sq)))
-                     (qrs (mc_run (scan_types (k_wanted c)) (k_ids c) h))) (k_sizes c)
-  | HUni hs =>
-      list_beq oconfig_eqb (map observe (scan_unicast lk (k_wanted c) (k_ids c) hs)) (k_out c) &&
-      sizes_eqb (map (fun h => table_sizes (uparser (uc_run (nqueries (scan_types (k_wanted c))) h))) hs)
-                (k_sizes c)
+  | HMulti h => list_beq oconfig_eqb (map observe (scan_multicast lk (k_wanted c) (k_ids c) h)) (k_out c)
+  | HUni hs => list_beq oconfig_eqb (map observe (scan_unicast lk (k_wanted c) (k_ids c) hs)) (k_out c)
   end.
